@@ -1144,7 +1144,7 @@ def well_referenced_j(j):
         return False
 
 
-# inputs that failed before the repairs bbbdf5d / 0a31493 / e90a01c / 14f203b / 6fc8934 (they must pass now), and the
+# inputs that failed before the repairs 3b164a5 / bb99a14 / 5da6dce / 814ef78 / b066a4a (they must pass now), and the
 # witnesses of what is still a known finding
 WITNESSES = [
     # D9: pattern note with an octave
